@@ -20,19 +20,27 @@ LEVEL_TEXT = ("Exploration by generated-input search: exhaustive grids over the 
               "(per-octet IPv4, every prefix length, every IPv6 zero-group pattern, every Ethernet group shape) plus Hypothesis cases, "
               "each judged differentially against Python's ipaddress and by round-trip/order laws. Address code is pure and cheap, so "
               "tens of thousands of cases per second make dense sampling the right level; no proof of absence is claimed.")
-LEVEL_NOTE = "trusts Python's ipaddress as reference; texts in the inet_aton-only zone are counted, not judged"
+LEVEL_NOTE = ("trusts Python's ipaddress as reference; IPv4 texts in the inet_aton-only zone are counted, not judged; zero-padded over-long "
+              "groups (IPv6 '00001', Ethernet '00f', mixed-notation '010') may be rejected or read numerically, never otherwise")
 RULE = ("cases are enumerated grids (per-octet IPv4, all 33/129 prefix lengths with boundary addresses, all 256 IPv6 "
         "zero-group patterns, all 64 one/two-digit Ethernet group shapes, boundary dpids) plus Hypothesis-drawn ones; a case is "
         "non-trivial when it uses a prefix length outside {0,32,128} with host bits present, or a textual/binary form other "
-        "than the canonical text, or a malformed text; distinct by SHA-1 of the canonical JSON of the case")
+        "than the canonical text, or a malformed text, or octets of some length 0..17 in a binary form (binform), or a comparison "
+        "of an address with a plain-data operand -- text, octets, number, sequence, None, object -- that the class's own constructor "
+        "accepts or rejects (cmpdata; labels name the constructor's verdict and exception type); distinct by SHA-1 of the canonical "
+        "JSON of the case")
 ASSUMPTIONS = [
   "Python's ipaddress module is a correct reference for IPv4/IPv6 text, networks and netmasks",
   "texts that BSD inet_aton accepts but ipaddress rejects (e.g. '10.1', leading zeros) are an ambiguous zone: counted, not judged",
   "ordering is only required to be a total order consistent with == (the property does not say it is numeric order)",
   "IPv4-mapped IPv6 addresses print in mixed notation (RFC 5952 section 5), which POX documents as its default",
+  "the inet_aton zone belongs to IPAddr only (it documents the delegation): the dotted part of IPv6 mixed notation is four decimal octets (RFC 4291 2.2; ipaddress and inet_pton agree), anything else must be rejected",
+  "a group zero-padded beyond its width (IPv6 '00001', Ethernet '00f', a decimal octet '010' in mixed notation) has one numeric reading: rejecting it and reading it numerically are both accepted, any other value is a mis-parse",
+  "== and != of an address with ANY operand return booleans (equality is total, as list/dict/set operations need); an operand the class's own constructor rejects is unequal to every address; ordering against it declines with TypeError or, if it answers, obeys the order laws",
+  "an int outside 0..2^32-1 given to IPAddr wraps (documented handling of signed values); not judged",
 ]
 EXHAUSTIVE_SCOPE = {
-  "quick": "grids: IPv4 each octet 0..255 x 3 background patterns x all constructor forms; 33 IPv4 and 129 IPv6 prefix lengths x boundary addresses x all membership call styles; 256 IPv6 zero-group patterns x 3 fills; 64 Ethernet group shapes x separators; boundary dpids",
+  "quick": "grids: IPv4 each octet 0..255 x 3 background patterns x all constructor forms; 33 IPv4 and 129 IPv6 prefix lengths x boundary addresses x all membership call styles; 256 IPv6 zero-group patterns x 3 fills; 64 Ethernet group shapes x separators; boundary dpids; 9 addresses x about 215 plain-data operands (every curated text of all three families, octets and sequences of length 0..17, numbers, None, object) for comparison; octets of length 0..8,12,15,16,17 x 5 fills x every binary form of the three classes; 8 hex parts x 44 dotted tails of IPv6 mixed notation; 11 over-long groups x 12 positions",
   "thorough": "as quick plus 64 structured IPv6 addresses x 129 prefixes, 12 backgrounds for the IPv4 octet grid",
 }
 
@@ -491,9 +499,87 @@ def case_ip6bad(c, out):
     out.label("ip6text-group-not-hex-must-raise")
     if not r:
       out.fail("ip6-malformed-accepted", "IPAddr6(%r) returned %s" % (text, v), cls="group-not-hex")
+  elif ref is None and _IP6_STRUCTURAL.fullmatch(text):
+    _judge_ip6_overlong(out, text, r, v)
+  elif ref is None and _ip6_tail_split(text) is not None:
+    _judge_ip6_tail(out, text, r, v)
   else:
     # includes RFC 4007 zone suffixes ('%eth0'), which ipaddress accepts and POX does not claim to
     out.label("ip6text-ambiguous-not-judged")
+
+
+def _judge_ip6_overlong(out, text, r, v):
+  """Only hex digits and colons, and some group has more than four digits (RFC 4291 2.2: one to four).  A group whose
+  value exceeds ffff is rejected by every reader.  A group that is merely zero-padded ('00001') has one possible
+  numeric reading; rejecting it (as ipaddress and inet_pton do) and reading it are both accepted here -- the same
+  decision as for Ethernet groups ('00f') -- but a value other than the numeric reading is a mis-parse."""
+  groups = text.split(":")
+  norm = [(g.lstrip("0") or "0") if len(g) > 4 else g for g in groups]
+  if any(len(g) > 4 for g in norm):
+    out.label("ip6text-group-gt-ffff-must-raise")
+    if not r:
+      out.fail("ip6-malformed-accepted", "IPAddr6(%r) returned %s" % (text, v), cls="group-gt-ffff")
+    return
+  try:
+    ref = ipaddress.IPv6Address(":".join(norm))
+  except ValueError:
+    out.label("ip6text-structural-must-raise")
+    if not r:
+      out.fail("ip6-malformed-accepted", "IPAddr6(%r) returned %s" % (text, v), cls="colon-structure")
+    return
+  out.label("ip6text-overlong-zero-padded:raise-or-numeric-reading")
+  if not r and v.raw != ref.packed:
+    out.fail("ip6-misparsed", "IPAddr6(%r) = %s, the only numeric reading is %s" % (text, v, ref))
+
+
+def _ip6_tail_split(text):
+  """(packed head with a zero tail, dotted tail) when the text is '<hex part>:<something with dots>' and the hex part
+  is well-formed on its own (RFC 4291 2.2 form 3: six groups' worth, then d.d.d.d); else None."""
+  if ":" not in text or "%" in text or "/" in text:
+    return None
+  head, tail = text.rsplit(":", 1)
+  if "." not in tail or "." in head:
+    return None
+  try:
+    return ipaddress.IPv6Address(head + ":0:0").packed, tail
+  except ValueError:
+    return None
+
+
+def _asciidigits(p):
+  return bool(p) and p.isascii() and p.isdigit()
+
+
+def _judge_ip6_tail(out, text, r, v):
+  """The hex part is fine and ipaddress rejects the text, so the dotted tail is at fault.  RFC 4291: 'd.d.d.d' with the
+  d's the DECIMAL values of the four low-order octets.  BSD inet_aton short forms ('1.2'), radix prefixes, blanks and
+  trailing junk were never IPv6 text (inet_pton rejects them too): must raise.  Four decimal parts written with leading
+  zeros: rejecting and reading them as decimal are both accepted; any other value (octal!) is a mis-parse."""
+  head, tail = _ip6_tail_split(text)
+  parts = tail.split(".")
+  if len(parts) == 4 and all(_asciidigits(p) and int(p) <= 255 for p in parts):
+    if not any(len(p) > 1 and p[0] == "0" for p in parts):
+      out.label("ip6text-ambiguous-not-judged")
+      return
+    out.label("ip6text-tail-leading-zero:raise-or-decimal-reading")
+    want = head[:12] + bytes(int(p) for p in parts)
+    if not r and v.raw != want:
+      out.fail("ip6-tail-misparsed", "IPAddr6(%r) = %s; the dotted part is decimal (RFC 4291), i.e. %s" % (
+          text, v, ipaddress.IPv6Address(want)))
+    return
+  if any(p == "" for p in parts):
+    cls = "empty-part"
+  elif not all(_asciidigits(p) for p in parts):
+    cls = "non-decimal-part"
+  elif len(parts) < 4:
+    cls = "short-tail"
+  elif len(parts) > 4:
+    cls = "long-tail"
+  else:
+    cls = "octet-gt-255"
+  out.label("ip6text-tail-must-raise:" + cls)
+  if not r:
+    out.fail("ip6-tail-malformed-accepted", "IPAddr6(%r) returned %s; the IPv4 part of mixed notation is four decimal octets" % (text, v), cls=cls)
 
 
 _STYLES6 = ["cidr", "mask", "tuple-obj", "tuple-str", "sep-int", "sep-mask", "sep-obj"]
@@ -685,7 +771,11 @@ def case_ethtext(c, out):
         break                       # POX documents xx-xx-xx-xx-xx-xx only; other dash forms are not judged
       ok = all(1 <= len(g) <= 2 and set(g) <= _HEXDIGITS for g in groups)
       if not ok and all(g and set(g) <= _HEXDIGITS and int(g, 16) <= 0xff for g in groups):
-        out.label("ethtext-ambiguous-not-judged")     # hex groups padded beyond two digits ('00f'): not judged
+        # hex groups zero-padded beyond two digits ('00f'): one possible numeric reading; rejecting and reading
+        # are both accepted (same decision as for IPv6 groups, '00001'), another value is a mis-parse
+        out.label("ethtext-overlong-zero-padded:raise-or-numeric-reading")
+        if not r and v.raw != bytes(int(g, 16) for g in groups):
+          out.fail("eth-misparsed", "EthAddr(%r) = %s, the text says %s" % (arg, v, bytes(int(g, 16) for g in groups).hex()))
         break
       if ok:
         out.label("ethtext-wellformed")
@@ -911,6 +1001,206 @@ def case_cmpcross(c, out):
     out.fail("cross-reflected", "%r vs %r: x<y and y>x (etc.) disagree: %r" % (x, y, o), pair=pair)
 
 
+# --------------------------------------------------------------------------- comparison with plain data operands
+
+def _operand(spec):
+  """A fresh plain-data operand (never an address object of this library) from its JSON description."""
+  ty = spec["ty"]
+  if ty == "none": return None
+  if ty == "object": return object()
+  if ty == "dict": return {}
+  if ty == "text": return spec["v"]
+  if ty == "bytes": return bytes(spec["v"])
+  if ty == "bytearray": return bytearray(spec["v"])
+  if ty == "int": return spec["v"]
+  if ty == "float": return spec["v"] / 8.0          # carried as a number of eighths
+  if ty == "list": return list(spec["v"])
+  if ty == "tuple": return tuple(spec["v"])
+  raise AssertionError("unknown operand type %r" % (ty,))
+
+
+_EQ_FORMS = (("a==o", lambda a, o: a == o), ("a!=o", lambda a, o: a != o),
+             ("o==a", lambda a, o: o == a), ("o!=a", lambda a, o: o != a))
+_ORD_FORMS = (("a<o", lambda a, o: a < o), ("a<=o", lambda a, o: a <= o), ("a>o", lambda a, o: a > o), ("a>=o", lambda a, o: a >= o),
+              ("o<a", lambda a, o: o < a), ("o<=a", lambda a, o: o <= a), ("o>a", lambda a, o: o > a), ("o>=a", lambda a, o: o >= a))
+
+
+def case_cmpdata(c, out):
+  """An address compared with a plain-data operand `o` (text, bytes, number, sequence, None, arbitrary object)
+  that may or may not denote an address of the same class.  What the class itself says about `o` is observed by
+  offering `o` to its constructor.  Laws (equality, ordering mutually consistent; == is total):
+    * ==, != in both operand orders return complementary, symmetric booleans -- they never raise;
+    * `o` rejected by the constructor: it is no address, so a == o is False; `o` accepted as y: a == o iff the
+      octets of y are those of a;
+    * membership, count and index in a list holding `o` and `a` do not depend on the order of the list;
+    * the ordering operators either all decline in Python's way (TypeError) or all answer booleans; when they
+      answer, exactly one of <, ==, > holds, <= and >= are the unions, a<o agrees with o>a, and if `o` was accepted
+      as y every verdict equals the one against y; any other exception is a violation."""
+  A, U = _mods()
+  t, spec = c["t"], c["o"]
+  a = _mk_addr(A, t, c["a"])
+  T = type(a)
+  out.nontrivial = True
+  out.label("cmpdata-operand:" + spec["ty"])
+  r, y = _raises(T, _operand(spec))
+  if r:
+    out.label("cmpdata-ctor-rejects:" + type(y).__name__)
+    expect = False
+  else:
+    expect = y.raw == a.raw
+    out.label("cmpdata-ctor-accepts-equal" if expect else "cmpdata-ctor-accepts-unequal")
+  o = _operand(spec)
+  shown = repr(o)[:60]
+  res = {}
+  for name, f in _EQ_FORMS:
+    try:
+      v = f(a, o)
+    except Exception as e:      # noqa: BLE001 - judged: == and != are total
+      out.fail("data-eq-raises", "%s: %r, o=%s: %s raises %s: %s" % (t, a, shown, name, type(e).__name__, str(e)[:80]),
+               type=t, exc=type(e).__name__)
+      return
+    if not isinstance(v, bool):
+      out.fail("data-eq-not-bool", "%s: %r, o=%s: %s returned %r" % (t, a, shown, name, v), type=t)
+      return
+    res[name] = v
+  eq = res["a==o"]
+  if eq == res["a!=o"] or res["o==a"] == res["o!=a"]:
+    out.fail("data-eq-ne", "%s: %r vs %s: == and != are not complementary: %r" % (t, a, shown, res), type=t)
+  if eq != res["o==a"]:
+    out.fail("data-eq-asymmetric", "%s: %r == %s is %s but reversed is %s" % (t, a, shown, eq, res["o==a"]), type=t)
+  if eq != expect:
+    out.fail("data-eq-verdict", "%s: %r == %s is %s although the constructor %s" % (
+        t, a, shown, eq, ("rejects the operand (%s)" % type(y).__name__) if r else ("reads it as %r" % (y,))), type=t)
+  for name, lst in (("[o, a]", [o, a]), ("[a, o]", [a, o])):
+    try:
+      got = (a in lst, lst.count(a), lst.index(a))
+    except Exception as e:      # noqa: BLE001 - judged
+      out.fail("data-membership-raises", "%s: looking %r up in %s with o=%s raises %s" % (t, a, name, shown, type(e).__name__),
+               type=t, exc=type(e).__name__)
+      continue
+    want = (True, 2 if expect else 1, 0 if (expect or lst[0] is a) else 1)
+    if got != want:
+      out.fail("data-membership", "%s: (in, count, index) of %r in %s with o=%s is %r, expected %r" % (t, a, name, shown, got, want), type=t)
+  ordv, declined = {}, []
+  for name, f in _ORD_FORMS:
+    try:
+      v = f(a, o)
+    except TypeError:
+      declined.append(name)
+      continue
+    except Exception as e:      # noqa: BLE001 - judged: an ordering operator declines with TypeError, nothing else
+      out.fail("data-order-raises", "%s: %r, o=%s: %s raises %s: %s" % (t, a, shown, name, type(e).__name__, str(e)[:80]),
+               type=t, exc=type(e).__name__)
+      return
+    if not isinstance(v, bool):
+      out.fail("data-order-not-bool", "%s: %r, o=%s: %s returned %r" % (t, a, shown, name, v), type=t)
+      return
+    ordv[name] = v
+  if declined and ordv:
+    out.fail("data-order-partial", "%s: %r vs %s: some ordering operators decline (%s) and others answer (%s)" % (
+        t, a, shown, ",".join(declined), ",".join(sorted(ordv))), type=t)
+    return
+  if declined:
+    out.label("cmpdata-order-declined")
+    if eq:
+      out.fail("data-order-declined-equal", "%s: %r == %s yet they cannot be ordered" % (t, a, shown), type=t)
+    return
+  out.label("cmpdata-ordered")
+  if [ordv["a<o"], eq, ordv["a>o"]].count(True) != 1:
+    out.fail("data-trichotomy", "%s: %r vs %s: <,==,> = %s,%s,%s" % (t, a, shown, ordv["a<o"], eq, ordv["a>o"]), type=t)
+  if ordv["a<=o"] != (ordv["a<o"] or eq) or ordv["a>=o"] != (ordv["a>o"] or eq):
+    out.fail("data-le-ge", "%s: %r vs %s: <=/>= are not the unions of </>/==: %r" % (t, a, shown, ordv), type=t)
+  if ordv["a<o"] != ordv["o>a"] or ordv["a>o"] != ordv["o<a"] or ordv["a<=o"] != ordv["o>=a"] or ordv["a>=o"] != ordv["o<=a"]:
+    out.fail("data-order-reflected", "%s: %r vs %s: a<o and o>a (etc.) disagree: %r" % (t, a, shown, ordv), type=t)
+  if not r:
+    wanted = {"a<o": a < y, "a<=o": a <= y, "a>o": a > y, "a>=o": a >= y}
+    if any(ordv[k] != wanted[k] for k in wanted):
+      out.fail("data-order-vs-address", "%s: %r ordered against %s gives %r, against the address it denotes (%r) %r" % (
+          t, a, shown, {k: ordv[k] for k in wanted}, y, wanted), type=t)
+
+
+# --------------------------------------------------------------------------- binary forms of every length
+
+_WIDTH = {"eth": 6, "ip4": 4, "ip6": 16}
+# the ways each class takes octets (not text); a form listed under _BIN_DOCUMENTED is one the class documents as binary,
+# so octets of the right length must be taken as they are -- the others only have to "raise or be well-formed"
+_BIN_FORMS = {
+  "eth": ["bytes", "bytearray", "list", "tuple"],
+  "ip4": ["bytes", "bytearray", "list", "tuple"],
+  "ip6": ["bytes", "bytes-raw-flag", "raw-kw", "from_raw", "bytearray", "bytearray-raw-flag", "list", "tuple"],
+}
+_BIN_DOCUMENTED = {
+  "eth": {"bytes", "bytearray", "list", "tuple"},
+  "ip4": {"bytes", "bytearray"},
+  "ip6": {"bytes-raw-flag", "raw-kw", "from_raw", "bytearray", "bytearray-raw-flag"},
+}
+
+
+def _bin_call(A, t, form, v):
+  T = {"eth": A.EthAddr, "ip4": A.IPAddr, "ip6": A.IPAddr6}[t]
+  if form == "list": return T, (lambda: T(list(v)))
+  if form == "tuple": return T, (lambda: T(tuple(v)))
+  b = bytes(v)
+  if form == "bytes": return T, (lambda: T(b))
+  if form == "bytearray": return T, (lambda: T(bytearray(b)))
+  if form == "bytes-raw-flag": return T, (lambda: T(b, raw=True))
+  if form == "bytearray-raw-flag": return T, (lambda: T(bytearray(b), raw=True))
+  if form == "raw-kw": return T, (lambda: T(raw=b))
+  if form == "from_raw": return T, (lambda: T.from_raw(b))
+  raise AssertionError("unknown form %r" % (form,))
+
+
+def _canon_text(t, raw):
+  if t == "eth": return ":".join("%02x" % b for b in raw)
+  if t == "ip4": return str(ipaddress.IPv4Address(raw))
+  return _ip6_canon(raw)
+
+
+def case_binform(c, out):
+  """Octets of ANY length (0..17) offered to a class in each of its binary forms.  'Every accepted binary form ...
+  prints the canonical text, which re-parses to an equal address; malformed input is rejected rather than
+  mis-parsed': the constructor must either raise or return a well-formed address -- raw is `bytes` of exactly the
+  class's width, str() is the canonical text of those octets and reads back as an equal value with an equal hash.
+  Octets of exactly the right length in a documented binary form must be accepted as they are."""
+  A, U = _mods()
+  t, form, v = c["t"], c["form"], c["v"]
+  n = _WIDTH[t]
+  inrange = all(isinstance(b, int) and 0 <= b <= 255 for b in v)
+  exact = inrange and len(v) == n
+  assert inrange or form in ("list", "tuple"), "only list/tuple forms can carry elements outside 0..255"
+  T, call = _bin_call(A, t, form, v)
+  out.nontrivial = True
+  out.label("binform-exact-length" if len(v) == n else "binform-wrong-length")
+  if not inrange:
+    out.label("binform-element-out-of-range")
+  r, x = _raises(call)
+  if r:
+    out.label("binform-rejected")
+    if exact and form in _BIN_DOCUMENTED[t]:
+      out.fail("binform-wellformed-rejected", "%s: %d octets %s in form %s raised %r" % (t, n, bytes(v).hex(), form, x), type=t, form=form)
+    return
+  out.label("binform-accepted" if len(v) == n else "binform-wrong-length-accepted-as-other-form")
+  shown = (bytes(v).hex() if inrange else repr(v))
+  why = None
+  raw = getattr(x, "raw", None)
+  if type(x) is not T:
+    why = "returned a %s" % type(x).__name__
+  elif type(raw) is not bytes or len(raw) != n:
+    why = "the value holds %r, which is not %d octets" % (raw, n)
+  else:
+    r1, s = _raises(str, x)
+    if r1 or s != _canon_text(t, raw):
+      why = "str() gives %r, canonical text of its octets is %r" % (s, _canon_text(t, raw))
+    else:
+      r2, back = _raises(T, s)
+      if r2 or back.raw != raw or not (back == x) or hash(back) != hash(x) or len(x) != n:
+        why = "its text %r does not read back as an equal value (%r)" % (s, back)
+  if why is not None:
+    out.fail("binform-malformed-accepted", "%s: %d octets (%s) in form %s accepted: %s" % (t, len(v), shown, form, why), type=t, form=form)
+  elif exact and form in _BIN_DOCUMENTED[t] and raw != bytes(v):
+    out.fail("binform-value", "%s: octets %s in form %s became %s" % (t, shown, form, raw.hex()), type=t, form=form)
+
+
 def _ref_dpid_str(d, always_long):
   lo, hi = d & 0xffffffffffff, d >> 48
   s = "-".join("%02x" % ((lo >> s) & 255) for s in range(40, -8, -8))
@@ -953,6 +1243,7 @@ _CASES = {
   "ip6cidr": case_ip6cidr, "ip6badmask": case_ip6badmask,
   "eth": case_eth, "ethnone": case_ethnone, "ethbad": case_ethbad, "cmp": case_cmp, "cmpforeign": case_cmpforeign, "cmpcross": case_cmpcross,
   "dpid": case_dpid, "dpidbad": case_dpidbad, "ethtext": case_ethtext, "cidrtext": case_cidrtext,
+  "cmpdata": case_cmpdata, "binform": case_binform,
 }
 
 
@@ -1225,6 +1516,7 @@ def enum_cmp(tier):
 
 
 _MAPPED = b"\0" * 10 + b"\xff\xff"
+_MAPPED_INT = 0xffff << 32
 
 
 def enum_cmpcross(tier):
@@ -1237,6 +1529,83 @@ def enum_cmpcross(tier):
     for x in fam[tx]:
       for y in fam[ty]:
         yield {"k": "cmpcross", "tx": tx, "x": x, "ty": ty, "y": y}
+
+
+_JUNK_TEXTS = ["localhost", "any", " ", "None", "10.0.0.0/8", "fe80::/64", "::ffff:1.2.3.999", "fe80::1.2.3", "zz:zz:zz:zz:zz:zz",
+               "\0", "1.2.3.4\0", "\u0661.2.3.4", "1.2.3.4\n", "0x1.2.3.4", "1.2.3.4 x", "00:11:22:33:44:55", "fe80::1", "10.0.0.1",
+               "not an address", "1-2-3-4-5-6", "00-11-22-33-44-55", "001122334455", "4294967296", "-1"]
+_BIN_LENGTHS = [0, 1, 2, 3, 4, 5, 6, 7, 8, 12, 15, 16, 17]
+
+
+def _data_operands(t, raw):
+  """plain-data operands for an address of class t with octets raw: texts (its own, a neighbour's, every curated
+  malformed / ambiguous text of all three families, junk), octet strings and sequences of every length, numbers, None..."""
+  n = _WIDTH[t]
+  other = bytes([raw[0] ^ 0x80]) + raw[1:]
+  texts = [_canon_text(t, raw), _canon_text(t, raw).upper(), _canon_text(t, other)]
+  texts += [x for x, _ in _IP4_BAD] + _IP4_AMBIG + [x for x, _ in _IP6_BAD] + _IP6_AMBIG + [x for x, _ in _ETH_BAD] + _JUNK_TEXTS
+  seen = set()
+  for x in texts:
+    if x not in seen:
+      seen.add(x)
+      yield {"ty": "text", "v": x}
+  octs = [raw, other, raw + b"\0", raw[:-1], b"\xff\xfe\x00", _canon_text(t, raw).encode(), _canon_text(t, other).encode(), b"localhost",
+          b"1.2.3.256", b"::1"] + [bytes(range(1, k + 1)) for k in _BIN_LENGTHS] + [b"1" * k for k in (1, 5, 12)]
+  for b in octs:
+    yield {"ty": "bytes", "v": b}
+    yield {"ty": "bytearray", "v": b}
+  for v in (0, 1, 5, -1, int.from_bytes(raw, "big"), 1 << 31, (1 << 32) - 1, 1 << 32, (1 << 128) - 1, 1 << 128, 1 << 200):
+    yield {"ty": "int", "v": v}
+  for v in (12, 0, -20):
+    yield {"ty": "float", "v": v}
+  for ty in ("none", "object", "dict"):
+    yield {"ty": ty}
+  seqs = [list(raw), list(other)] + [list(range(1, k + 1)) for k in _BIN_LENGTHS] + [[1, 2, 3, 4, 5, 256][-n:], [-1] * n, [0] * (n + 1)]
+  for v in seqs:
+    yield {"ty": "list", "v": v}
+    yield {"ty": "tuple", "v": v}
+
+
+def enum_cmpdata(tier):
+  vals = {"ip4": [0x0a000001, 0, 0xffffffff], "ip6": [0xfe80 << 112 | 1, _MAPPED_INT | 0x0a000001, 0], "eth": [0x001122334455, 0xffffffffffff, 0]}
+  for t in ("ip4", "ip6", "eth"):
+    for v in vals[t]:
+      raw = v.to_bytes(_WIDTH[t], "big")
+      for o in _data_operands(t, raw):
+        yield {"k": "cmpdata", "t": t, "a": raw, "o": o}
+
+
+def enum_binform(tier):
+  """octets of every length 0..8, 12, 15, 16, 17 in every binary form of every class; fills: ascending, zero, ff,
+  ASCII digits / hex digits (lengths at which a class takes bytes for text), plus out-of-range sequence elements"""
+  for t in ("eth", "ip4", "ip6"):
+    for form in _BIN_FORMS[t]:
+      for k in _BIN_LENGTHS:
+        for fill in (list(range(1, k + 1)), [0] * k, [255] * k, [0x31 + (i % 9) for i in range(k)], [0x61 + (i % 6) for i in range(k)]):
+          yield {"k": "binform", "t": t, "form": form, "v": fill}
+      if form in ("list", "tuple"):
+        n = _WIDTH[t]
+        for bad in ([256] + [0] * (n - 1), [0] * (n - 1) + [-1], [1 << 40] * n, [256] * (n + 1), [-1]):
+          yield {"k": "binform", "t": t, "form": form, "v": bad}
+
+
+_V4_TAILS = ["1.2", "1.2.3", "1", "1.2.3.4.5", "1..3.4", ".1.2.3", "1.2.3.", "1.2.3.4.", "0x1.2.3.4", "1.2.3.0x4", "1.2.3.4 ", "1.2.3.4 x",
+             " 1.2.3.4", "1.2.3.4\n", "+1.2.3.4", "1.2.3.-4", "1.2.3.256", "256.1.1.1", "1.2.3.999", "1.2.3.1000", "1.2.3.a", "a.b.c.d",
+             "\u0661.2.3.4", "1.2.3.\u0664", "1_0.2.3.4", "1.2.3.4.5.6", "16909060.", "1.131844", "1.2.772", "0.0", "0.",
+             "010.1.1.1", "01.2.3.4", "1.2.3.04", "1.02.3.4", "00.0.0.0", "1.2.3.010", "0001.2.3.4", "001.002.003.004", "1.2.3.0377",
+             "1.2.3.4", "0.0.0.0", "255.255.255.255", "10.0.0.1"]
+_V4_HEADS = ["::", "::ffff:", "1::", "1:2:3:4:5:6:", "64:ff9b::", "::1:", "1:2:3::", "0:0:0:0:0:ffff:"]
+
+
+def enum_ip6tail(tier):
+  """IPv6 mixed notation: every well-formed hex part x every curated dotted tail (well-formed, BSD short forms, radix
+  prefixes, blanks, junk, out-of-range, leading zeros), plus hex groups of more than four digits"""
+  for h in _V4_HEADS:
+    for tl in _V4_TAILS:
+      yield {"k": "ip6bad", "text": h + tl}
+  for g in ("00001", "0ffff", "00000", "000000001", "0" * 20 + "1", "00abc", "0ABCD", "10000", "012345", "fffff", "00010000"):
+    for tmpl in ("%s::", "::%s", "1::%s", "%s::1", "1:2:3:4:5:6:7:%s", "%s:2:3:4:5:6:7:8", "1:2:3:%s:5:6:7:8", "1:%s::8", "::%s:1.2.3.4", ":%s", "%s:", "1:2:%s"):
+      yield {"k": "ip6bad", "text": tmpl % g}
 
 
 def enum_dpid(tier):
@@ -1255,7 +1624,7 @@ def enum_dpid(tier):
 def _all_enum(tier):
   return itertools.chain(enum_ip4(tier), enum_ip4net(tier), enum_ip4text(tier), enum_ip6(tier), enum_ip6bad(tier),
                          enum_ip6net(tier), enum_eth(tier), enum_cmp(tier), enum_cmpcross(tier), enum_dpid(tier),
-                         enum_textforms(tier))
+                         enum_textforms(tier), enum_cmpdata(tier), enum_binform(tier), enum_ip6tail(tier))
 
 
 # --------------------------------------------------------------------------- Hypothesis strategies
@@ -1346,6 +1715,7 @@ def _strategy(tier):
     st.tuples(_u(64), st.booleans()).map(lambda t: {"k": "dpid", "v": t[0], "long": t[1]}),
     _s_cmpcross(),
     _s_ethtext(), _s_cidrtext(),
+    _s_cmpdata(), _s_cmpdata(), _s_binform(), _s_ip6tail(),
   )
 
 
@@ -1395,6 +1765,108 @@ def _s_ip6_decorated():
     return ":".join(g)
   return st.tuples(st.lists(grp, min_size=8, max_size=8), st.integers(0, 7), deco, st.booleans()).map(build).filter(
       lambda t: "." not in t.split(":")[-1]).map(lambda t: {"k": "ip6bad", "text": t})
+
+
+_CMPDATA_KINDS = ["near-text"] * 5 + ["listed-text"] * 3 + ["soup4", "soup6", "family-text", "text-as-bytes", "text-as-bytes",
+                  "octets", "octets", "octets-bytearray", "int", "int", "float", "other", "seq", "seq", "seq-near"]
+_EDIT_CHARS = list("0123456789abcdefg.:-/ x+\0")
+_LISTED_TEXTS = _JUNK_TEXTS + [x for x, _ in _IP4_BAD + _IP6_BAD + _ETH_BAD] + _IP4_AMBIG + _IP6_AMBIG
+
+
+@st.composite
+def _s_cmpdata(draw):
+  """address + plain-data operand: texts near the address's own text (equal, case-changed, one edit away), texts of the
+  other families, alphabet soup, octet strings / sequences of length 0..17 near the address's octets, numbers"""
+  t = draw(st.sampled_from(["ip4", "ip4", "ip6", "eth"]))
+  raw = draw(_raw(_WIDTH[t]))
+  kind = draw(st.sampled_from(_CMPDATA_KINDS))
+  def text():
+    if kind in ("near-text", "text-as-bytes"):
+      canon = _canon_text(t, raw)
+      how = draw(st.sampled_from(["same", "upper", "ins", "del", "sub", "sub"]))
+      if how == "same": return canon
+      if how == "upper": return canon.upper()
+      i, ch = draw(st.integers(0, len(canon))), draw(st.sampled_from(_EDIT_CHARS))
+      return canon[:i] + (ch if how != "del" else "") + canon[i + (0 if how == "ins" else 1):]
+    if kind == "listed-text": return draw(st.sampled_from(_LISTED_TEXTS))
+    if kind == "soup4": return draw(st.text(_TEXT_ALPHABET4, max_size=18))
+    if kind == "soup6": return draw(st.text(_TEXT_ALPHABET6, max_size=30))
+    ft = draw(st.sampled_from(["ip4", "ip6", "eth"]))
+    return _canon_text(ft, draw(_raw(_WIDTH[ft])))
+  def octets():
+    how = draw(st.sampled_from(["same", "short", "long", "len", "any"]))
+    if how == "same": return raw
+    if how == "short": return raw[:-1]
+    if how == "long": return raw + b"\0"
+    k = draw(st.sampled_from(_BIN_LENGTHS)) if how == "len" else draw(st.integers(0, 17))
+    return draw(st.binary(min_size=k, max_size=k))
+  if kind in ("near-text", "listed-text", "soup4", "soup6", "family-text"):
+    o = {"ty": "text", "v": text()}
+  elif kind == "text-as-bytes":
+    o = {"ty": "bytes", "v": text().encode("utf-8")}
+  elif kind == "octets":
+    o = {"ty": "bytes", "v": octets()}
+  elif kind == "octets-bytearray":
+    o = {"ty": "bytearray", "v": octets()}
+  elif kind == "int":
+    o = {"ty": "int", "v": draw(st.one_of(st.just(int.from_bytes(raw, "big")), st.integers(-(1 << 33), 1 << 33), _u(130)))}
+  elif kind == "float":
+    o = {"ty": "float", "v": draw(st.integers(-80, 80))}
+  elif kind == "other":
+    o = {"ty": draw(st.sampled_from(["none", "object", "dict"]))}
+  elif kind == "seq-near":
+    o = {"ty": draw(st.sampled_from(["list", "tuple"])), "v": list(octets())}
+  else:
+    o = {"ty": draw(st.sampled_from(["list", "tuple"])), "v": draw(st.lists(st.integers(-1, 256), max_size=17))}
+  return {"k": "cmpdata", "t": t, "a": raw, "o": o}
+
+
+def _s_binform():
+  def build(tf):
+    t, form = tf
+    elems = st.integers(-1, 256) if form in ("list", "tuple") else st.integers(0, 255)
+    v = st.one_of(st.sampled_from(_BIN_LENGTHS).flatmap(lambda k: st.lists(st.integers(0, 255), min_size=k, max_size=k)),
+                  st.lists(elems, max_size=17),
+                  st.lists(st.sampled_from(list(b"0123456789abcdefABCDEF:.-")), max_size=17))
+    return v.map(lambda l: {"k": "binform", "t": t, "form": form, "v": l})
+  return st.sampled_from([(t, f) for t in ("eth", "ip4", "ip6") for f in _BIN_FORMS[t]]).flatmap(build)
+
+
+_TAIL_PARTS = ["", "0x1", "+1", " 1", "1 ", "a", "\u0661", "256", "999", "1000", "65536", "00", "010", "0377", "08", "001", "0001"]
+
+
+@st.composite
+def _s_ip6tail(draw):
+  """a well-formed hex part ('::' anywhere, up to six groups) followed by a dotted tail of 1..6 parts -- decimal octets,
+  sometimes zero-padded / octal-looking / > 255 / decorated -- or a curated tail; or a plain IPv6 text in which one group
+  is written with more than four digits"""
+  hexgrp = st.integers(0, 0xffff).map(lambda v: "%x" % v)
+  k = draw(st.integers(0, 6))
+  groups = draw(st.lists(hexgrp, min_size=k, max_size=k))
+  if draw(st.integers(0, 4)) == 0:
+    # over-long group in a text without dotted part
+    groups = groups + ["1", "2"][:max(0, 2 - k)]
+    i = draw(st.integers(0, len(groups) - 1))
+    groups[i] = "0" * (5 - len(groups[i]) + draw(st.integers(0, 3))) + groups[i]
+    if len(groups) == 8:
+      return {"k": "ip6bad", "text": ":".join(groups)}
+    cut = draw(st.integers(0, len(groups)))
+    return {"k": "ip6bad", "text": ":".join(groups[:cut]) + "::" + ":".join(groups[cut:])}
+  if k == 6:
+    head = ":".join(groups) + ":"
+  else:
+    cut = draw(st.integers(0, k))
+    head = ":".join(groups[:cut]) + "::" + ":".join(groups[cut:]) + (":" if cut < k else "")
+  if draw(st.integers(0, 3)) == 0:
+    tail = draw(st.sampled_from(_V4_TAILS))
+  else:
+    n = draw(st.sampled_from([4, 4, 4, 4, 1, 2, 3, 5, 6]))
+    octet = st.integers(0, 255).map(str)
+    parts = draw(st.lists(octet, min_size=n, max_size=n))
+    for _ in range(draw(st.sampled_from([0, 0, 1, 1, 2]))):
+      parts[draw(st.integers(0, n - 1))] = draw(st.sampled_from(_TAIL_PARTS))
+    tail = ".".join(parts)
+  return {"k": "ip6bad", "text": head + tail}
 
 
 def _s_cmpcross():
